@@ -48,7 +48,7 @@ def one_repo(run, g, seed, quick, cipher=None, cache=False):
         for u in s.users[:2]:
             s.snapshot(u, files[:2] if u == s.users[0] else files[1:])
             files[1] = s.write_file('t1.bin', c.make() + b'changed')
-        if cache:
+        if cache is True:
             for u in s.users:
                 s.ls(u)       # warm the cache
         objs = dict(s.store.objs)
@@ -69,11 +69,17 @@ def one_repo(run, g, seed, quick, cipher=None, cache=False):
                 else:
                     s.store.objs[name] = new
                 s._marker('out', {'a': 'tamper', 'p': 1, 'kind': kind, 'area': area, 's': sid, 'gone': gone, 'name': name[:40]}, 'out')
-                s.ctx = '%s %s %s' % (area, kind.split('@')[0].split(':')[0], 'cache' if cache else 'nocache')
+                s.ctx = '%s %s %s' % (area, kind.split('@')[0].split(':')[0], ('cache-' + str(cache)) if cache else 'nocache')
+                if cache == 'cold':
+                    # the damaged object meets an EMPTY cache, and the command is then simply tried again (what a user does after an error):
+                    # whatever the first attempt left in the cache must not make the second one believe the object
+                    import shutil
+                    shutil.rmtree(cdir, ignore_errors=True)
                 for u in s.users:
-                    if area == 'snap' and sid:
-                        s.restore(u, '^%s$' % s.snapname[sid], fault=True)
-                    s.restore(u, fault=True)
+                    for attempt in range(2 if cache == 'cold' else 1):
+                        if area == 'snap' and sid:
+                            s.restore(u, '^%s$' % s.snapname[sid], fault=True)
+                        s.restore(u, fault=True)
                 s.ctx = None
                 s.store.objs[name] = objs[name]
                 s._marker('out', {'a': 'repair', 'p': 1, 's': sid, 'gone': gone}, 'out')
@@ -133,7 +139,8 @@ def main(run):
         run.add(transitions=res.generated)
     run.add(states=states)
     traces = []
-    grid = [('plain', None, False), ('shared', None, False), ('shared', {'name': 'chacha20_poly1305'}, False), ('plain', None, True), ('indep', {'name': 'aes_gcm', 'key_bits': 128}, True)]
+    grid = [('plain', None, False), ('shared', None, False), ('shared', {'name': 'chacha20_poly1305'}, False), ('plain', None, True), ('indep', {'name': 'aes_gcm', 'key_bits': 128}, True),
+            ('plain', None, 'cold'), ('shared', None, 'cold')]
     if not quick:
         grid += [('same', {'name': 'aes_gcm', 'key_bits': 192}, False), ('mixed', None, False), ('mixed', {'name': 'chacha20_poly1305'}, True), ('clone', None, False)]
     total = 0
